@@ -337,7 +337,7 @@ fn gen_value(c: &mut Choices) -> (Value, u32, u32) {
           related_topic_name: gen_nonempty_string(c),
           filter_class_name: gen_nonempty_string(c),
           filter_expression: gen_string(c),
-          expression_parameters: (0..c.pick(3)).map(|_| gen_string(c)).collect(),
+          expression_parameters: (0..[0usize, 1, 2, 3, 3, 4, 5, 7][c.pick(8)]).map(|_| gen_string(c)).collect(),
         })
       } else {
         None
